@@ -192,6 +192,15 @@ func Resume(
 		if sectionOffset, err = v1r.Seek(int64(length)-int64(n), io.SeekCurrent); err != nil {
 			return err
 		}
+		// Seeking does not notice the end of the file: make sure the last byte of the section
+		// is actually there, otherwise the section was only partially written.
+		var last [1]byte
+		if _, err := v1r.ReadAt(last[:], sectionOffset-1); err != nil {
+			if err == io.EOF {
+				err = io.ErrUnexpectedEOF
+			}
+			return fmt.Errorf("truncated section at offset %d: %w", sectionOffset, err)
+		}
 	}
 	// Seek to the end of last skipped block where the writer should resume writing.
 	_, err = dataWriter.Seek(sectionOffset, io.SeekStart)
